@@ -54,7 +54,7 @@ func c07EndToEnd(t *testing.T, tier string) (map[string]int, []report.Viol) {
 					}
 				}
 			}
-			maps := allMaps(g.names, []string{"", "a", "ab", "b"})
+			maps := allMaps(g.names, []string{"", "a", "ab", "b", "A"})
 			topic := fmt.Sprintf("projects/p/topics/g%d", gi)
 			if _, err := w.Pub.CreateTopic(ctx, &pubsubpb.Topic{Name: topic}); err != nil {
 				t.Fatal(err)
